@@ -87,7 +87,7 @@ class BitmapMetrics(NamedTuple):
                     round(
                         (
                             _width_in_pixels(config, image_data)
-                            - config.bitmap_resolution
+                            - image_data.size[0]
                         )
                         / 2
                     ),
